@@ -47,6 +47,30 @@ CHECKS = {
     text="randomize_* / randomize_model on the real G1 mjx.Model pytree with symbolic ranges and nominal values: every randomised entry within [nominal*lo, nominal*hi], every other of the 124 model leaves identical (the output leaf IS the input variable); initial() of the three tasks with physics stubbed: model in range, command/frequency in range (zero for standing tasks), derived kinematics equal forward kinematics of the FINAL qpos/qvel; gait phases with pi an interval-bounded symbol and fmod encoded exactly: range, increment 2*pi*f*dt, half-cycle offset inductive and initial; cubic Bezier foot height range/zero/peak (NRA); transition advances the phase exactly once with the state's own frequency.",
     note="actual G1 model sizes; float rounding of fmod at the wrap point, negative frequencies, f*dt > 1/2, MJX physics outside the claim",
     ref="DESIGN.md §2 C20"),
+ "C06": dict(
+    text="ONE INDUCTIVE STEP of the real ReplayBuffer.add from an arbitrary buffer satisfying a ring invariant with a symbolic insert position p >= 0 (ghost tags: every leaf of a written slot, incl. dict observations, tuple actions and policy states, is H_leaf(tag) of the same insertion): add re-establishes the invariant at p+1 and writes all fields of the new row in one slot; pure-integer lemmas (solver) link the invariant to 'holds exactly the most recent min(n,C) insertions, each once'; sample() with the choice contract stub returns only stored rows, all leaves gathered with the same index, no index twice, also for E=2 buffers with independent symbolic fill levels.",
+    note="capacity <=4 (6 thorough), E<=2, batch <= stored; position a mathematical integer (int32 wrap at 2^31 outside the claim); uniformity of draws outside the claim",
+    ref="DESIGN.md §2 C06"),
+ "C07": dict(
+    text="DQN.dqn_loss / dqn_loss_grad / dqn_train and the real SAC.sac_train are traced on symbolic batches (all four done/timeout combinations) over uninterpreted Q-policies, actor and critics (value form) and small tabular ones (gradient form, JAX differentiates the real loss): the regression target is r + gamma*(not done or timeout)*V' with V' = target-net value of the online greedy action (Double DQN) resp. min of the target critics at a freshly sampled next action minus alpha*log pi; the loss is pinned up to one positive constant (fixed point of the per-sample gradient, proportionality of the reported q_loss); the critic update is the TD semi-gradient (targets are inputs only) and the actor/alpha losses do not move the critics (2-safety non-interference).",
+    note="batch <=3, |A|=3, obs/action dim <=2; transcendental functions uninterpreted; float rounding outside the claim; Polyak/target updates are C10",
+    ref="DESIGN.md §2 C07"),
+ "C08": dict(
+    text="PPO.ppo_loss (all four flag combinations) with its PPOStats, A2C.a2c_loss and REINFORCE.reinforce_loss are traced over an uninterpreted policy and compared component-wise (policy term, entropy term, total exactly; value term up to one positive constant via proportionality two-instance queries, with value clipping the larger of clipped/unclipped errors) with the published objectives written independently; consequences as separate obligations: favoured-side clipped ratio => zero policy gradient (JAX-differentiated real loss over a tabular policy), on-policy data => ratios 1 and approx-KL 0; the train steps apply updates through the configured optimiser and the real optax chain is clip_by_global_norm then adam (first update from a zero state).",
+    note="batch <=2 with normalisation (3 thorough), <=3 (4) without; exp/sqrt uninterpreted with axioms; Ackermannisation + nlsat; adam beyond its first step and LR schedules outside the claim",
+    ref="DESIGN.md §2 C08"),
+ "C09": dict(
+    text="batch_indices / gather / batches / flatten_axes / RolloutBuffer.sample are traced with the permutation an arbitrary symbolic permutation (contract stub) for all 1<=B<=N<=8 (12 thorough): the index matrix has floor(N/B) rows of B distinct in-range entries; every leaf of the gathered buffer (nested dict/tuple observations and actions, masks, policy states; ghost tags) carries the same tag per row; flatten_axes is onto with the same rearrangement on every leaf; in the real PPO.train each epoch draws one permutation from its own split key (key terms reaching the permutation are pairwise distinct); resolve_axes (pure Python) by CrossHair; end to end, per-sample visit counts are read from the symbolic final parameters of the real PPO.train with a tabular value-only policy and SGD.",
+    note="N<=8/12, end-to-end N<=8 (1 epoch) / 6 (2 epochs); uniformity of the shuffle and which samples are dropped outside the claim",
+    ref="DESIGN.md §2 C09"),
+ "C10": dict(
+    text="num_iterations (pure Python) is decided by CrossHair (k*E*S <= T < (k+1)*E*S for all T>=0, E,S>=1); learn() is traced for a grid of (T,E,S) and the iteration scan length read from the IR; the real iteration() of PPO, A2C, REINFORCE, DQN, SAC is traced over an uninterpreted environment and real tiny MLPs with a SYMBOLIC iteration counter: counter+1, exactly E*S environment transitions, DQN target' = ite((count+1) mod I == 0, new online, old target) plus the integer lemma that this recurrence keeps 'online as of the most recent multiple of I' (and reset: target = online at count 0), SAC target critics = tau*online_new + (1-tau)*target exactly once per iteration, actor / temperature and their optimiser states unchanged when count mod policy_frequency != 0, temperature never changes without autotuning.",
+    note="intervals I<=3 (5), policy_frequency<=2 (3), tau=0.25 static; newly trained parameters are abstracted to opaque values where the obligation only moves them; int32 counter wrap outside the claim",
+    ref="DESIGN.md §2 C10"),
+ "C11": dict(
+    text="For PPO, A2C, REINFORCE, DQN and SAC the real reset() and iteration() (and learn() for one iteration) are traced once per callback set {none, LoggingCallback, ProgressBarCallback, CallbackList of both, nested lists} over an uninterpreted environment and the real tiny MLP policies with symbolic parameters; with the same symbolic inputs every output other than the callbacks' own state is shown equal to the run without observers (identical terms, otherwise per-output solver queries); learn() is inspected at IR level for purity (no impure primitive beyond output-less debug callbacks and equinox error_if, no donated input, identical re-trace and captured constants); 'different keys yield different runs' is an existential obligation decided sat per algorithm (an implementation that ignores its key is reported after replay).",
+    note="sizes num_envs 1 (2 thorough), num_steps<=2, MLP width 2; bit-level determinism of XLA kernels outside the claim (purity of the traced program is what is shown)",
+    ref="DESIGN.md §2 C11"),
 }
 NOT_YET = {}
 NA = {"C18": "file-system I/O and NumPy serialisation of concrete buffers: nothing symbolic to execute (eqx.tree_serialise_leaves crosses into numpy.save, CrossHair realises every input at that boundary); 'fails loudly' is an exception-path property of equinox. See DESIGN.md §2 C18."}
